@@ -5,7 +5,10 @@ delivered exactly, blocking and non-blocking receive agree.
    split classes x {blocking, nonblocking} x {echo, no echo} x every point at which the client may stop
    or shut down x every point at which the handler may return): invariants Inv_Handshake,
    Inv_WellFormedOut, Inv_Delivered, Inv_PingPong, Inv_Close, action properties NoneOnlyWhenNothing and
-   MsgIsNext, liveness (CloseAnswered, AllDelivered under fairness) on a smaller configuration.  Each named
+   MsgIsNext, ErrorOnlyAtEof, Inv_SockRestored / Inv_Pushed (the socket mode left by every receive call: handlers
+   that MIX recv_nonblocking, send and recv - an empty poll, then a push of 3 bytes or 6 MiB to a client that
+   starts reading late, then blocking or polling receives of frames that arrive later), liveness
+   (CloseAnswered, AllDelivered under fairness) on a smaller configuration.  Each named
    deviation of the code as it was (ReplyPayloadOnly, OneByteHeader) and six plausible bugs must be refuted
    by TLC (sensitivity), two "can happen" witnesses must be found.
 2. spec -> code (method B): the same TLC run prints every finished behaviour (client script with cuts, how it
@@ -41,6 +44,9 @@ SENS = [
     ("MC_WsEndpoint_dev_CloseNoReply.cfg", "CloseNoReply", "invariant", "Inv_Close"),
     ("MC_WsEndpoint_dev_DropCloseTwice.cfg", "DropCloseTwice", "invariant", "Inv_Close"),
     ("MC_WsEndpoint_dev_NoneWhilePartial.cfg", "NoneWhilePartial", "action_property", "NoneOnlyWhenNothing"),
+    ("MC_WsEndpoint_dev_NonblockingLeftOn.cfg", "NonblockingLeftOn", "invariant", "Inv_SockRestored"),
+    ("MC_WsEndpoint_dev_NonblockingLeftOn_send.cfg", "NonblockingLeftOn", "invariant", "Inv_WellFormedOut"),
+    ("MC_WsEndpoint_dev_NonblockingLeftOn_recv.cfg", "NonblockingLeftOn", "action_property", "ErrorOnlyAtEof"),
     ("MC_WsEndpoint_wit_fragping.cfg", "witness: fragmented message with a Ping inside is delivered whole", "invariant", "NeverFragmentedWithPing"),
     ("MC_WsEndpoint_wit_nonemsg.cfg", "witness: `nothing yet` followed by a message", "invariant", "NeverNoneThenMsg"),
 ]
@@ -49,24 +55,29 @@ RANDOM_BASE = 10_000_000
 
 def case_key(c):
     fr = [[f["op"], f["fin"], f["pay"], sorted(f["cuts"])] for f in c["frames"]]
-    return json.dumps([c["key"], c["mode"], c["echo"], fr, c["sent"], c["end"]], sort_keys=True)
+    return json.dumps([c["key"], c["mode"], c["echo"], c.get("pre", "none"), c.get("push", []), fr, c["sent"], c["end"]],
+                      sort_keys=True)
 
 
 def nontrivial(c):
     """a case is non-trivial when the server has to do more than deliver single unfragmented frames that arrive
     whole: a control frame, a fragmented message, or a frame written in pieces"""
     fs = c["frames"]
+    if c.get("pre", "none") != "none":
+        return True
     return any(f["op"] in ("ping", "pong", "close") or not f["fin"] or f["op"] == "cont" or f["cuts"] for f in fs)
 
 
 def brief(c):
     return {"key": c["key"], "mode": c["mode"], "echo": c["echo"], "end": c["end"], "sent": c["sent"],
+            "pre": c.get("pre", "none"), "push_len": sum(r["n"] for r in c.get("push", [])),
             "frames": [{"op": f["op"], "fin": f["fin"], "len": sum(r["n"] for r in f["pay"]), "cuts": sorted(f["cuts"])[:8]}
                        for f in c["frames"]]}
 
 
 def trace_line(r, c=None):
-    return {"c": r["c"] if c is None else c, "mode": r["mode"], "echo": r["echo"], "ev": r["ev"]}
+    return {"c": r["c"] if c is None else c, "mode": r["mode"], "echo": r["echo"], "pre": r["pre"], "push": r["push"],
+            "ev": r["ev"]}
 
 
 def run_harness(ws, args, cases=None, timeout=3000):
@@ -189,9 +200,9 @@ def corrupt_trace(line, how):
                 n = sum(r["n"] for r in e["pay"])
                 sent = 6 + (0 if n < 126 else 2 if n < 65536 else 8) + n
             if e["e"] == "call" and sent and i + 1 < len(ev) and ev[i + 1]["e"] == "ret" and ev[i + 1]["kind"] == "msg" \
-                    and e["avail"] >= sent and not any(x["e"] == "ret" for x in ev[:i]):
+                    and e["nb"] and e["avail"] >= sent and not any(x["e"] == "ret" for x in ev[:i]):
                 ev.insert(i, {"e": "ret", "kind": "none", "text": False, "pay": []})
-                ev.insert(i, {"e": "call", "avail": e["avail"]})
+                ev.insert(i, {"e": "call", "avail": e["avail"], "nb": e["nb"]})
                 return line
     elif how == "dropclose":
         fr = ev[-1]["frames"]
@@ -248,15 +259,24 @@ def run(tier, replay):
     side["live"] = pool.submit(run_tlc, "MC_WsEndpoint.tla", live_cfg, D, workers=2, timeout=1800, heap="4g", work_id="c11-live")
 
     cases = {}
+    side["mixed"] = pool.submit(run_tlc, "MC_WsEndpoint.tla", "MC_WsEndpoint_mixed_%s.cfg" % tier, D, workers=2, coverage=True,
+                                timeout=1800, heap="4g", work_id="c11-mixed")
     for label, cfg, cover in (("exhaustive check + behaviours", "MC_WsEndpoint_%s.cfg" % tier, True),
-                              ("all split classes and keys + behaviours", "Gen_WsEndpoint_%s.cfg" % tier, False)):
-        r = run_tlc("MC_WsEndpoint.tla", cfg, D, workers=8, coverage=cover, timeout=3300, heap="12g", work_id="c11-mc")
+                              ("all split classes and keys + behaviours", "Gen_WsEndpoint_%s.cfg" % tier, False),
+                              ("handlers mixing the calls: empty poll, push of 3 B / 6 MiB, then the mode + behaviours",
+                               "MC_WsEndpoint_mixed_%s.cfg" % tier, None)):
+        if cover is None:
+            r = side["mixed"].result()
+        else:
+            r = run_tlc("MC_WsEndpoint.tla", cfg, D, workers=8, coverage=cover, timeout=3300, heap="12g", work_id="c11-mc")
         ctx.add_tlc("%s (%s, Dev={})" % (label, cfg), r)
         ctx.require_tlc_ok(cfg, r)
         if r.violation:
             return ctx.finish()
         if cover:
             ctx.require_cover(cfg, r, ACTIONS)
+        if cover is None:
+            ctx.require_cover(cfg, r, ACTIONS + ["A_Push"])
         raw = sum(1 for l in r.out.splitlines() if l.startswith('"{'))
         if raw != len(r.prints) or not r.prints:
             raise vlib.ToolError("%s: %d behaviour lines printed, %d decoded" % (cfg, raw, len(r.prints)))
@@ -296,6 +316,9 @@ def run(tier, replay):
     nt = sum(1 for c in clist if nontrivial(c))
     ctx.add_part("behaviour replay", behaviours=len(clist), nontrivial=nt, mismatches=len(bad),
                  nonblocking=sum(1 for c in clist if c["mode"] == "nonblocking"),
+                 mixed_poll_then_receive=sum(1 for c in clist if c.get("pre") == "poll"),
+                 mixed_poll_then_push=sum(1 for c in clist if c.get("pre") == "pollpush"),
+                 mixed_poll_then_push_6MiB_to_slow_reader=sum(1 for c in clist if c.get("pre") == "pollpush" and sum(x["n"] for x in c["push"]) > (1 << 20)),
                  nothing_yet_results=sum(r["nones"] for r in res),
                  connections_with_a_call_entered_on_a_partial_header=sum(1 for r in res if r["partial"]))
     for r in bad[:20]:
